@@ -67,10 +67,12 @@ Reason(view, m) ==
 
 HeldFor(U, pool, m) == IF m.snd \in U THEN (IF m.kd = 0 THEN pool.keys[m.snd] ELSE pool.pkgs[m.snd]) ELSE None
 
+EpOf(tab, h) == IF h \in DOMAIN tab THEN tab[h].ep ELSE -1      \* (an entry the scenario does not know: never "already")
+
 \* the answer of AddPublicFlipKey / AddPrivateKeysPackage
 CodeOf(tab, U, pool, view, m) ==
     LET h == HeldFor(U, pool, m)
-    IN IF h # None /\ tab[h].ep >= m.ep THEN "already" ELSE Reason(view, m)
+    IN IF h # None /\ EpOf(tab, h) >= m.ep THEN "already" ELSE Reason(view, m)
 
 Admit(tab, U, pool, view, m, own) ==
     IF CodeOf(tab, U, pool, view, m) # "ok" THEN pool
